@@ -9,6 +9,8 @@ B_QUERY = [[], ["x=1"], ["x=1", "y=2"], ["y=2", "x=1", "z"], ["id=", "x=a b"], [
 BASE = [("b_host", B_HOST), ("b_path", B_PATH), ("b_query", list(range(len(B_QUERY))))]
 
 # representative irrelevant items: one per alternative group of the documented vocabulary
+# items that only the per-domain filters drop: "<domain suffix>|item"
+PER_DOMAIN_ITEMS = ["youtube.com|si=ELPm", "youtube.com|t=12", "youtube.com|ab_channel=x", "facebook.com|_rdr", "facebook.com|_rdc=1"]
 IRRELEVANT_ITEMS_QUICK = ["utm_source=x", "fbclid=1", "PHPSESSIONID=1", "amp", "amp_js_v=1", "ref=fb", "s=12", "mode=amp",
                           "outputtype=amp", "xtor=1", "_ga=1", "at_medium=1", "gclid=x", "UTM_Campaign=X", "m=1", "sid=9"]
 IRRELEVANT_KEYS_ALL = ["__twitter_impression", "_guc_consent_skip", "guccounter", "fb_action_types", "phpsessionid", "aspsessionid",
@@ -24,8 +26,8 @@ IRRELEVANT_COMBOS_ALL = ["marfeeltn=amp", "mode=amp", "output=amp", "platform=ho
 
 def irrelevant_items(tier):
     if tier == "quick":
-        return IRRELEVANT_ITEMS_QUICK
-    return IRRELEVANT_ITEMS_QUICK + [k + "=1" for k in IRRELEVANT_KEYS_ALL] + IRRELEVANT_COMBOS_ALL
+        return IRRELEVANT_ITEMS_QUICK + PER_DOMAIN_ITEMS
+    return IRRELEVANT_ITEMS_QUICK + PER_DOMAIN_ITEMS + [k + "=1" for k in IRRELEVANT_KEYS_ALL] + IRRELEVANT_COMBOS_ALL
 
 
 ESC = ["raw", "letter", "space", "nonascii", "all", "lower-hex"]
@@ -50,7 +52,7 @@ def toggles(tier):
         ("t_esc_query", ESC),
         ("t_esc_item", ["raw", "letter", "lower-hex"]),
         ("t_wrap", ["", "left", "right", "tabs", "ctrl-mid", "ctrl-end", "ctrl-space-left", "space-ctrl-right"]),
-        ("t_dot", ["", "lead-dot", "mid-pair", "lead-empty"]),
+        ("t_dot", ["", "lead-dot", "mid-pair", "lead-empty", "mid-emptypair"]),
     ]
 
 
@@ -114,14 +116,18 @@ def build(case, toggled=True, extra=None):
         path = "/." + (path or "/")
     elif td == "lead-empty":
         path = "/" + (path or "/")
-    elif td == "mid-pair":
+    elif td in ("mid-pair", "mid-emptypair"):
         m = re.match(r"^(/[^/]+)(/.*)$", path)
         if m:
-            path = m.group(1) + "/x/.." + m.group(2)
+            path = m.group(1) + ("/x/.." if td == "mid-pair" else "/x//..") + m.group(2)
     items = permute(items, g("t_perm", 0))
     emode = g("t_esc_query", "raw")
     items = [esc_component(i, emode) for i in items]
     it = g("t_item", "")
+    if "|" in it:
+        dom, it = it.split("|", 1)
+        if not case.get("b_host", B_HOST[0]).endswith(dom):
+            it = ""  # a per-domain item is only irrelevant on that domain
     if it:
         k, sep, v = it.partition("=")
         k = esc_component(k, g("t_esc_item", "raw"))
